@@ -17,6 +17,8 @@ extra = sys.argv[3:]
 tier = os.environ.get("SEED_TIER", "quick")
 src = f"/tmp/mut/{os.environ.get('SEED_PREFIX', 'out_')}{prop}"
 keep_as = os.environ.get("SEED_AS", n)
+if os.environ.get("SEED_DIR"):
+    src = os.environ["SEED_DIR"]
 patch, demo = f"{src}/patch{n}.diff", f"{src}/demo{n}.py"
 checks = [prop] + extra
 out = subprocess.run([f"{V}/tools/seedcheck.sh", patch, demo, tier, *checks], capture_output=True, text=True).stdout
